@@ -332,8 +332,11 @@ class Rig:
     async def reopen(self):
         return True
 
+    def begin_unit(self, cls):
+        """called before a unit of class cls is sent (generated or replayed)"""
+
     def stale(self):
-        """the channel has no delimiter to resynchronise on and raw bytes were sent on it: probe on a fresh channel"""
+        """the channel has no delimiter to resynchronise on and a unit that may end inside an SDU was sent on it: probe on a fresh channel"""
         return False
 
     def disc_of(self, cls, unit):
@@ -1141,7 +1144,7 @@ class DynRig(Rig):
 class SdpRig(DynRig):
     name = "sdp"
     psm = sdp.SDP_PSM
-    classes = DynRig.classes + ("sdp_nest_deep", "sdp_size_lie", "sdp_bad_continuation") + STRUCTURED
+    classes = DynRig.classes + ("sdp_nest_deep", "sdp_nest_siblings", "sdp_size_lie", "sdp_bad_continuation") + STRUCTURED
 
     def record(self):
         return [
@@ -1216,6 +1219,24 @@ class SdpRig(DynRig):
     def gen_sdp_nest_deep(self):
         depth = self.rng.choice([9, 17, 33, 64, 200, 400, 1200, 3000])
         return self._request(mu.sdp_nested(depth, width16=self.rng.random() < 0.7))
+
+    def gen_sdp_nest_siblings(self):
+        """two requests, as the search pattern / the attribute id list of both request types that carry data elements:
+        containers nested a few times the depth any guard allows, and nested beyond what the interpreter's stack holds;
+        SEQUENCE only, ALTERNATIVE only or mixed; the siblings before the nested container only, or on both sides"""
+        r = self.rng
+        unit = []
+        for depth in (r.choice([40, 100, 200, 400]), r.choice([700, 1200, 3000])):
+            kinds = r.choice([(0x30,), (0x38,), (0x30, 0x38)])
+            before, after = r.choice([((1, 1), (0, 0)), ((1, 3), (0, 0)), ((1, 2), (0, 2))])
+            nested = mu.sdp_nested_siblings(r, depth, kinds, before, after)
+            if r.random() < 0.3:  # as the attribute id list, behind an ordinary search pattern
+                pat = bytes(sdp.DataElement.sequence([sdp.DataElement.uuid(SDP_UUID)]))
+                params = pat + struct.pack(">H", 100) + nested + b"\x00"
+                unit.append(("chan", b"\x06" + struct.pack(">HH", r.randint(0, 0xFFFF), len(params)) + params))
+            else:
+                unit.append(("chan", self._request(nested)))
+        return unit
 
     def gen_sdp_size_lie(self):
         return self._request(mu.sdp_size_lie(self.rng))
@@ -2259,9 +2280,13 @@ class HfpHfRig(RfcommRig):
 class LeCocRig(Rig):
     name = "le_coc"
     fixed = False
-    classes = mu.GENERIC + ("coc_sdu_len_lie", "coc_oversize", "coc_zero_credit_flood", "chan_disc") + STRUCTURED
+    classes = mu.GENERIC + ("coc_sdu_len_lie", "coc_sdu_over_mtu", "coc_oversize", "coc_zero_credit_flood", "chan_disc") + STRUCTURED
     PSM = 0x0080
     settle = 0.3
+    MTU = 256  # what the victim announces for the channel (and the attacking side too)
+    MPS = 64
+    # classes made of complete SDUs only (Robust.tla: not in CocPartial): the channel stays in step, the probe is owed on it
+    COMPLETE = ("coc_sdu_over_mtu",)
 
     def prepare_victim(self):
         self.victim_channels = []
@@ -2270,7 +2295,7 @@ class LeCocRig(Rig):
             self.victim_channels.append(ch)
             ch.sink = lambda sdu: ch.write(b"echo:" + sdu)
 
-        self.victim.create_l2cap_server(l2cap.LeCreditBasedChannelSpec(psm=self.PSM, mtu=256, mps=64, max_credits=64), on_channel)
+        self.victim.create_l2cap_server(l2cap.LeCreditBasedChannelSpec(psm=self.PSM, mtu=self.MTU, mps=self.MPS, max_credits=64), on_channel)
 
     def forward_to_attacker_stack(self, cid):
         return True
@@ -2278,12 +2303,20 @@ class LeCocRig(Rig):
     async def open_channel(self):
         self.closed_by_harness = False
         self.dirty = False
-        self.chan = await asyncio.wait_for(self.ac.create_l2cap_channel(l2cap.LeCreditBasedChannelSpec(psm=self.PSM, mtu=256, mps=64, max_credits=64)), 10)
+        self.chan = await asyncio.wait_for(self.ac.create_l2cap_channel(l2cap.LeCreditBasedChannelSpec(psm=self.PSM, mtu=self.MTU, mps=self.MPS, max_credits=64)), 10)
         self.sdus = []
         self.chan.sink = lambda sdu: self.sdus.append(bytes(sdu))
 
+    def begin_unit(self, cls):
+        self.cur_cls = cls
+
     def send_chan(self, data):
-        self.dirty = True
+        if getattr(self, "cur_cls", None) in self.COMPLETE:
+            # a peer that keeps to the flow control: the raw K-frame spends one of the credits the victim granted
+            if isinstance(getattr(self.chan, "credits", None), int):
+                self.chan.credits = max(0, self.chan.credits - 1)
+        else:
+            self.dirty = True
         self.ac.send_l2cap_pdu(self.chan.destination_cid, data)
 
     def stale(self):
@@ -2353,6 +2386,23 @@ class LeCocRig(Rig):
         r = self.rng
         return r.choice([b"", b"\x05", struct.pack("<H", 200) + b"abc", struct.pack("<H", 0xFFFF) + b"abc", struct.pack("<H", 2) + b"abcdef",
                          struct.pack("<H", 257) + bytes(62), struct.pack("<H", 0) + b"x"])
+
+    def gen_coc_sdu_over_mtu(self):
+        """1 .. 3 complete SDUs, each in K-frames of at most the MPS that carry exactly SDU-length bytes; at least one SDU
+        length is above the MTU the victim announced (by one, by a few, by a lot), the others are ordinary"""
+        r = self.rng
+        n = r.randint(1, 3)
+        over = r.randrange(n)
+        unit = []
+        for k in range(n):
+            if k == over or r.random() < 0.3:
+                length = self.MTU + r.choice([1, 1, 2, 7, self.MPS, self.MTU])
+            else:
+                length = r.choice([0, 1, 8, self.MPS - 2, self.MPS, 100, self.MTU])
+            sdu = struct.pack("<H", length) + mu.rand_bytes(r, length)
+            mps = r.choice([self.MPS, self.MPS, self.MPS - 1, 32])  # (at most 3 x 17 K-frames: within the 64 credits granted)
+            unit += [("chan", sdu[i : i + mps]) for i in range(0, len(sdu), mps)]
+        return unit
 
     def gen_coc_oversize(self):
         return struct.pack("<H", 10) + mu.rand_bytes(self.rng, self.rng.choice([65, 100, 300, 1000]))  # larger than the MPS
